@@ -10,7 +10,7 @@ Notation cnt := (count_occ msg_dec).
 
 (* bursts the clock thread holds in local variables (taken out of the queue, not yet emitted / logged), or lost in a crash *)
 Definition local (s : st) : list msg :=
-  match tpc s with TK2u e d | TK3 e d | TK4 e d => e ++ d | TCrash l => l | _ => [] end.
+  match tpc s with TK2u e d | TK3 e d => e ++ d | TCrash l => l | _ => [] end.
 
 (* no burst is ever duplicated or silently lost: multiset equation, for every burst x *)
 Definition Inv (s : st) : Prop :=
@@ -19,26 +19,21 @@ Definition Inv (s : st) : Prop :=
 Lemma part_cnt f q x : let '(d, e, w) := part f q in cnt q x = (cnt d x + cnt e x + cnt w x)%nat.
 Proof.
   induction q as [|m r IH]; cbn [part]; [reflexivity|]. destruct (part f r) as [[d e] w].
-  destruct (snd m <? f); [|destruct (snd m =? f)]; cbn [count_occ]; destruct (msg_dec m x); lia.
+  destruct (delta (snd m) f =? 0); [|destruct (delta (snd m) f <? HF / 2)]; cbn [count_occ]; destruct (msg_dec m x); lia.
 Qed.
 
 Lemma tick_inv f s : Inv s -> Inv (tick_step f s).
 Proof.
   unfold Inv, tick_step, local. intros H x. specialize (H x).
-  destruct (tpc s) as [| | |e d|e d|e d| |l] eqn:E.
+  destruct (tpc s) as [| | |e d|e d| |l] eqn:E.
   - cbn. exact H.
   - destruct (running s); cbn; exact H.
   - pose proof (part_cnt f (queue s) x) as P. destruct (part f (queue s)) as [[d e] w].
     cbn in *; rewrite ?count_occ_app in *; lia.
   - destruct e as [|m e]; cbn in *; rewrite ?count_occ_app in *; cbn [count_occ] in *; try destruct (msg_dec m x); lia.
   - destruct e as [|m rest]; [cbn in *; rewrite ?count_occ_app in *; lia|].
-    destruct (fhset s); [cbn in *; exact H|]. unfold after_fwd. destruct rest as [|m2 r2]; cbn in *; rewrite ?count_occ_app in *; cbn [count_occ] in *;
+    unfold after_fwd. destruct rest as [|m2 r2]; cbn in *; rewrite ?count_occ_app in *; cbn [count_occ] in *;
       destruct (msg_dec m x); try destruct (msg_dec m2 x); lia.
-  - destruct e as [|m rest]; [cbn in *; rewrite ?count_occ_app in *; lia|].
-    destruct (fhset s).
-    + unfold after_fwd. destruct rest as [|m2 r2]; cbn in *; rewrite ?count_occ_app in *; cbn [count_occ] in *;
-        destruct (msg_dec m x); try destruct (msg_dec m2 x); lia.
-    + cbn in *. rewrite ?count_occ_app in *. cbn [count_occ] in *. destruct (msg_dec m x); lia.
   - rewrite E. exact H.
   - rewrite E. exact H.
 Qed.
@@ -67,35 +62,34 @@ Theorem interleavings_conserve f op sched r fh q : Inv (run f op sched (init r f
 Proof. split; [apply run_inv, init_inv|]. unfold run_all. apply drain_s_inv, drain_t_inv, run_inv, init_inv. Qed.
 
 (* ---- on time: whatever the schedule, only bursts of the tick's own frame are emitted; only past ones are reported stale ---- *)
-Definition pending_e (s : st) : list msg := match tpc s with TK2u e _ | TK3 e _ | TK4 e _ => e | _ => [] end.
-Definition pending_d (s : st) : list msg := match tpc s with TK2u _ d | TK3 _ d | TK4 _ d => d | _ => [] end.
+Definition pending_e (s : st) : list msg := match tpc s with TK2u e _ | TK3 e _ => e | _ => [] end.
+Definition pending_d (s : st) : list msg := match tpc s with TK2u _ d | TK3 _ d => d | _ => [] end.
+Definition due (f : Z) (m : msg) : Prop := delta (snd m) f = 0.
+Definition behind (f : Z) (m : msg) : Prop := delta (snd m) f <> 0 /\ HF / 2 <= delta (snd m) f.
 Definition Timely (f : Z) (s : st) : Prop :=
-  Forall (fun m => snd m = f) (emitted s) /\ Forall (fun m => snd m = f) (pending_e s)
-  /\ Forall (fun m => snd m < f) (stale s) /\ Forall (fun m => snd m < f) (pending_d s).
+  Forall (due f) (emitted s) /\ Forall (due f) (pending_e s)
+  /\ Forall (behind f) (stale s) /\ Forall (behind f) (pending_d s).
 
 Lemma part_frames f q : let '(d, e, w) := part f q in
-  Forall (fun m => snd m < f) d /\ Forall (fun m => snd m = f) e /\ Forall (fun m => f < snd m) w.
+  Forall (behind f) d /\ Forall (due f) e /\ Forall (fun m => delta (snd m) f <> 0 /\ delta (snd m) f < HF / 2) w.
 Proof.
   induction q as [|m r IH]; cbn [part]; [repeat split; constructor|]. destruct (part f r) as [[d e] w]. destruct IH as [A [B C]].
-  destruct (snd m <? f) eqn:E1; [repeat split; try assumption; constructor; [lia|assumption]|].
-  destruct (snd m =? f) eqn:E2; repeat split; try assumption; constructor; try lia; assumption.
+  unfold due, behind. destruct (delta (snd m) f =? 0) eqn:E1; [repeat split; try assumption; constructor; [lia|assumption]|].
+  destruct (delta (snd m) f <? HF / 2) eqn:E2; repeat split; try assumption; constructor; try (split; lia); assumption.
 Qed.
 
 Lemma tick_timely f s : Timely f s -> Timely f (tick_step f s).
 Proof.
   unfold Timely, tick_step, pending_e, pending_d. intros [H1 [H2 [H3 H4]]].
-  destruct (tpc s) as [| | |e d|e d|e d| |l] eqn:E.
+  destruct (tpc s) as [| | |e d|e d| |l] eqn:E.
   - cbn. repeat split; auto.
   - destruct (running s); cbn; repeat split; auto.
   - pose proof (part_frames f (queue s)) as P. destruct (part f (queue s)) as [[d e] w]. destruct P as [Pd [Pe _]].
     cbn; repeat split; auto.
   - destruct e as [|m e]; cbn; repeat split; auto; try apply Forall_app; auto.
   - destruct e as [|m rest]; [cbn; repeat split; auto; apply Forall_app; auto|].
-    destruct (fhset s); [cbn; repeat split; auto|]. inversion H2 as [|? ? Hm Hr]; subst. unfold after_fwd.
+    inversion H2 as [|? ? Hm Hr]; subst. unfold after_fwd.
     destruct rest as [|m2 r2]; cbn; repeat split; auto; try (apply Forall_app; split; auto).
-  - destruct e as [|m rest]; [cbn; repeat split; auto; apply Forall_app; auto|].
-    inversion H2 as [|? ? Hm Hr]; subst. destruct (fhset s); [|cbn; repeat split; auto].
-    unfold after_fwd. destruct rest as [|m2 r2]; cbn; repeat split; auto; try (apply Forall_app; split; auto).
   - rewrite E. repeat split; auto.
   - rewrite E. repeat split; auto.
 Qed.
@@ -106,7 +100,7 @@ Proof.
 Qed.
 Theorem interleavings_on_time f op sched r fh q :
   let s := run_all f op sched (init r fh q) in
-  Forall (fun m => snd m = f) (emitted s) /\ Forall (fun m => snd m < f) (stale s).
+  Forall (due f) (emitted s) /\ Forall (behind f) (stale s).
 Proof.
   assert (T0 : Timely f (init r fh q)) by (unfold Timely, init, pending_e, pending_d; cbn; repeat split; constructor).
   assert (R : forall sched s, Timely f s -> Timely f (run f op sched s)).
@@ -119,69 +113,33 @@ Proof.
   cbv zeta. unfold run_all. match goal with |- context [drain_s ?a op (drain_t ?n f ?x)] => pose proof (DS a _ (DT n _ (R sched _ T0))) as [A [_ [B _]]] end. auto.
 Qed.
 
-(* ---- the clock thread survives every schedule when hopping is not configured ---- *)
-Definition NoHop (s : st) : Prop := fhset s = false /\ match tpc s with TK4 _ _ | TCrash _ => False | _ => True end.
-Lemma tick_nohop f s : NoHop s -> NoHop (tick_step f s).
+(* ---- the clock thread survives every schedule, hopping or not, whatever the racing operation ---- *)
+Definition Alive (s : st) : Prop := match tpc s with TCrash _ => False | _ => True end.
+Lemma tick_alive f s : Alive s -> Alive (tick_step f s).
 Proof.
-  unfold NoHop, tick_step. intros [H1 H2]. destruct (tpc s) as [| | |e d|e d|e d| |l] eqn:E; try contradiction.
+  unfold Alive, tick_step. intros H. destruct (tpc s) as [| | |e d|e d| |l] eqn:E; try contradiction.
   - cbn. auto.
   - destruct (running s); cbn; auto.
   - destruct (part f (queue s)) as [[d e] w]. cbn; auto.
   - destruct e; cbn; auto.
-  - destruct e as [|m rest]; [cbn; auto|]. rewrite H1. unfold after_fwd. destruct rest; cbn; auto.
+  - destruct e as [|m rest]; [cbn; auto|]. unfold after_fwd. destruct rest; cbn; auto.
   - rewrite E. auto.
 Qed.
-Lemma sock_nohop op s : NoHop s -> NoHop (sock_step op s).
+Lemma sock_alive op s : Alive s -> Alive (sock_step op s).
+Proof. unfold Alive, sock_step. intros H. destruct (spc s); try destruct op; try destruct (running s); try destruct (fhset s); cbn; auto. Qed.
+Theorem no_crash_any_schedule f op sched r fh q : Alive (run_all f op sched (init r fh q)).
 Proof.
-  unfold NoHop, sock_step. intros [H1 H2]. destruct (spc s); try destruct op; try destruct (running s); try rewrite H1; cbn; auto.
-Qed.
-Theorem no_crash_without_hopping f op sched r q :
-  match tpc (run_all f op sched (init r false q)) with TCrash _ => False | _ => True end.
-Proof.
-  assert (N0 : NoHop (init r false q)) by (unfold NoHop, init; cbn; auto).
-  assert (R : forall sched s, NoHop s -> NoHop (run f op sched s)).
+  assert (N0 : Alive (init r fh q)) by (unfold Alive, init; cbn; auto).
+  assert (R : forall sched s, Alive s -> Alive (run f op sched s)).
   { induction sched0 as [|b r0 IH]; intros s H; cbn [run]; [exact H|]. apply IH. unfold sched_step.
-    destruct b; [destruct (t_live s)|destruct (s_live s)]; try apply tick_nohop; try apply sock_nohop; exact H. }
-  assert (DT : forall n s, NoHop s -> NoHop (drain_t n f s)).
-  { induction n as [|n IH]; intros s H; cbn [drain_t]; [exact H|]. destruct (t_live s); [apply IH, tick_nohop, H|exact H]. }
-  assert (DS : forall n s, NoHop s -> NoHop (drain_s n op s)).
-  { induction n as [|n IH]; intros s H; cbn [drain_s]; [exact H|]. destruct (s_live s); [apply IH, sock_nohop, H|exact H]. }
-  unfold run_all. match goal with |- context [drain_s ?a op (drain_t ?n f ?x)] => pose proof (DS a _ (DT n _ (R sched _ N0))) as [_ H] end. destruct (tpc _); auto.
+    destruct b; [destruct (t_live s)|destruct (s_live s)]; try apply tick_alive; try apply sock_alive; exact H. }
+  assert (DT : forall n s, Alive s -> Alive (drain_t n f s)).
+  { induction n as [|n IH]; intros s H; cbn [drain_t]; [exact H|]. destruct (t_live s); [apply IH, tick_alive, H|exact H]. }
+  assert (DS : forall n s, Alive s -> Alive (drain_s n op s)).
+  { induction n as [|n IH]; intros s H; cbn [drain_s]; [exact H|]. destruct (s_live s); [apply IH, sock_alive, H|exact H]. }
+  unfold run_all. apply DS, DT, R, N0.
 Qed.
 
-(* ... and an arrival or a POWERON can never crash it either, hopping or not (only POWEROFF clears fh) *)
-Definition FhKept (s : st) : Prop := fhset s = true /\ match tpc s with TCrash _ => False | _ => True end /\ match spc s with SP1 | SP2 | SP2u | SP3 | SP4 => False | _ => True end.
-Lemma tick_fhkept f s : FhKept s -> FhKept (tick_step f s).
-Proof.
-  unfold FhKept, tick_step. intros [H1 [H2 H3]]. destruct (tpc s) as [| | |e d|e d|e d| |l] eqn:E; try contradiction.
-  - cbn. auto.
-  - destruct (running s); cbn; auto.
-  - destruct (part f (queue s)) as [[d e] w]. cbn; auto.
-  - destruct e; cbn; auto.
-  - destruct e as [|m rest]; [cbn; auto|]. rewrite H1. cbn. auto.
-  - destruct e as [|m rest]; [cbn; auto|]. rewrite H1. unfold after_fwd. destruct rest; cbn; auto.
-  - rewrite E. auto.
-Qed.
-Lemma sock_fhkept op s : op <> PowerOff -> FhKept s -> FhKept (sock_step op s).
-Proof.
-  unfold FhKept, sock_step. intros Hop [H1 [H2 H3]]. destruct (spc s) eqn:Es; try contradiction; try destruct op; try congruence; try destruct (running s); cbn; rewrite ?Es; auto.
-Qed.
-Theorem no_crash_without_poweroff f op sched r q : op <> PowerOff ->
-  match tpc (run_all f op sched (init r true q)) with TCrash _ => False | _ => True end.
-Proof.
-  intros Hop.
-  assert (N0 : FhKept (init r true q)) by (unfold FhKept, init; cbn; auto).
-  assert (R : forall sched s, FhKept s -> FhKept (run f op sched s)).
-  { induction sched0 as [|b r0 IH]; intros s H; cbn [run]; [exact H|]. apply IH. unfold sched_step.
-    destruct b; [destruct (t_live s)|destruct (s_live s)]; try apply tick_fhkept; try apply sock_fhkept; auto. }
-  assert (DT : forall n s, FhKept s -> FhKept (drain_t n f s)).
-  { induction n as [|n IH]; intros s H; cbn [drain_t]; [exact H|]. destruct (t_live s); [apply IH, tick_fhkept, H|exact H]. }
-  assert (DS : forall n s, FhKept s -> FhKept (drain_s n op s)).
-  { induction n as [|n IH]; intros s H; cbn [drain_s]; [exact H|]. destruct (s_live s); [apply IH, sock_fhkept; auto|exact H]. }
-  unfold run_all. match goal with |- context [drain_s ?a op (drain_t ?n f ?x)] => pose proof (DS a _ (DT n _ (R sched _ N0))) as [_ [H _]] end. destruct (tpc _); auto.
-Qed.
-
-(* with hopping configured, POWEROFF racing the tick CAN kill the clock thread: get_tx_freq reads self.fh twice (known finding) *)
-Lemma fh_race_refuted : exists sched,
-  tpc (run_all 10 PowerOff sched (init true true [(1, 10)])) = TCrash [(1, 10)].
-Proof. exists [true; true; true; true; true; false; false; false; false; false; false; true]. vm_compute. reflexivity. Qed.
+(* both threads finish within the drain bounds: nothing is left in local variables, so accepted = queue + emitted + stale + cleared exactly *)
+Example former_fh_race_witness : tpc (run_all 10 PowerOff [true; true; true; true; true; false; false; false; false; false; false; true] (init true true [(1, 10)])) = TDone.
+Proof. vm_compute. reflexivity. Qed.
